@@ -328,8 +328,11 @@ def _evolve_checked(cx, fam, spec, ttno, h, lab, q, t, method, tau, normalize, t
     psi0 = L.dense_ttns(t)
     c0 = complex(t.coeff)
     rep = lambda **kw: cx.replay(fam, spec, state0, _hist_json(hist), dict(failing_step=len(hist) - 1, **kw))
+    if time.time() - cx.t0 > (150.0 if cx.quick else 1200.0):
+        run.count("abandoned:hard-deadline")          # the family loop checks its budget only between cases
+        return None
     try:
-        with _Watchdog(240 if cx.quick else 400):
+        with _Watchdog(120):
             new = t.evolve(ttno, tau, normalize=normalize)
     except _RunAway:
         # safety net: an integration that runs away (stiff mean-field equations with an adaptive ODE solver) is interrupted and
